@@ -114,8 +114,11 @@ func runC03(c *Ctx) {
 					mixed = true
 				}
 				q.nop = c2.VerifC02IsNoP(p)
-			case x < 22: // a re-key announcement: ID 0 with the Crypt flag and key material
+			case x < 22: // key material: a re-key announcement (ID 0) or a re-registration hello (ID 2)
 				p.Flags = com.FlagCrypt
+				if r.Chance(30) {
+					p.ID, p.Job = 2, uint16(2+r.Intn(60000))
+				}
 				p.Write(r.Bytes(20 + r.Intn(100)))
 			case x < 30 && last > 0: // a fragment of the group the peer asked to abandon
 				p.ID, p.Job = uint8(0x10+r.Intn(0xE0)), uint16(2+r.Intn(60000))
